@@ -10,26 +10,75 @@ CODEC_ASSUME = [
 CHECKS = {
     "C01": dict(
         engine="codec", level="exploration",
-        args=dict(quick=["-budget", "5", "-valdev", "1", "-entries", "2"],
-                  thorough=["-budget", "6", "-valdev", "2", "-entries", "3"]),
+        args=dict(quick=["-budget", "6", "-valdev", "1", "-entries", "2"],
+                  thorough=["-budget", "7", "-valdev", "2", "-entries", "3"]),
         deadline=dict(quick=110, thorough=1500),
         rule="every message of the enumerated space (template shape × type order × framing-tag set × header/trailer form × population × value route × value deviation; BodyLength sweep 0..1100 payload bytes; checksum-residue sweep; 11 generated fix44 types) is serialised by the library and checked against the byte-level oracle. A case is non-trivial-distinct by the key (typed body shape, body population, header/trailer population, digit count of BodyLength, checksum class {<10,<100,>=100}).",
         assumptions=CODEC_ASSUME,
     ),
     "C17": dict(
         engine="codec", level="exploration",
-        args=dict(quick=["-budget", "5", "-valdev", "1", "-entries", "2"],
-                  thorough=["-budget", "6", "-valdev", "2", "-entries", "3"]),
+        args=dict(quick=["-budget", "6", "-valdev", "1", "-entries", "2"],
+                  thorough=["-budget", "7", "-valdev", "2", "-entries", "3"]),
         deadline=dict(quick=110, thorough=1500),
         rule="every message of the enumerated space (as C01, with values entering through constructor, Set and FromBytes, and with populated trailer fields) is serialised and its field list between MsgType and CheckSum compared with the reference field list of the population. Non-trivial-distinct key: (typed body shape, body population, header/trailer population, set of value routes used).",
         assumptions=CODEC_ASSUME,
     ),
     "C02": dict(
         engine="codec", level="exploration",
-        args=dict(quick=["-budget", "5", "-valdev", "1", "-entries", "2"],
-                  thorough=["-budget", "6", "-valdev", "2", "-entries", "3"]),
+        args=dict(quick=["-budget", "6", "-valdev", "1", "-entries", "2"],
+                  thorough=["-budget", "7", "-valdev", "2", "-entries", "3"]),
         deadline=dict(quick=110, thorough=1500),
         rule="every message of the enumerated space that satisfies the stated preconditions (unique tags, first field of each entry populated, non-empty values) is serialised, parsed into a fresh empty message of the same template in strict and non-strict mode, compared leaf by leaf (dynamic type and value; floats bit-equal; times Equal and UTC; entry counts and order) and re-serialised (byte-identical). Non-trivial-distinct key: (typed body shape, populations, non-default values present).",
         assumptions=CODEC_ASSUME + ["a message whose serialisation already lost a populated field (C17's findings) is outside C02's premise and is counted under counters.skipped"],
     ),
+    "C18": dict(
+        engine="codec", level="exploration",
+        args=dict(quick=["-budget", "4"], thorough=["-budget", "6"]),
+        deadline=dict(quick=110, thorough=1500),
+        rule="for every template unit, every population, every tag t of template ∪ framing ∪ {34}: (i) each String/Raw field takes the values t=, t=1, xt=2, y\\x02t=, =t=; (ii) a decoy field with tag 1t, t1, 9t, t0, t-without-first-digit, t-without-last-digit is placed before / after the genuine fields; (iii) genuine field or group present/absent. The message is built by the harness encoder; Unmarshal (strict and not) must yield exactly the population and ValueByTag must equal the reference whole-tag lookup for every tag. Non-trivial-distinct key: (unit, typed shape, population, kind {plain, decoy-before, decoy-after, taglike-value}, values, decoy).",
+        assumptions=CODEC_ASSUME + ["decoy fields are placed at top level only (after MsgType / before CheckSum); the trailer is left unpopulated (C17 known finding)",
+                                    "delivery of such messages through Conn.runReader (end-of-message detection) is checked by C04's scenarios, whose message pool contains values with '10=' text"],
+    ),
+    "C03": dict(
+        engine="codec", level="exploration",
+        args=dict(quick=["-bases", "200"], thorough=["-bases", "1200"]),
+        deadline=dict(quick=110, thorough=1500),
+        rule="for each base message (hand-picked + enumerated family, <= 130 bytes) the complete single-damage neighbourhood: every substitution (|m|*255), every interior insertion ((|m|-1)*256), every deletion, every proper prefix; each variant parsed from an exact-capacity slice in strict and non-strict mode; it must be rejected, and whenever the library accepts a byte string the independent integrity validator must accept it too. Non-trivial-distinct key: (base message, damaged position).",
+        assumptions=CODEC_ASSUME,
+    ),
+    "C11": dict(
+        engine="codec", level="exploration",
+        args=dict(quick=["-len", "7", "-tokens", "5"], thorough=["-len", "8", "-tokens", "5"]),
+        deadline=dict(quick=110, thorough=1500),
+        rule="(i) every byte string of length <= L over the alphabet {8,9,1,0,3,=,SOH,A} against 5 message types (Heartbeat, Logon, MarketDataRequest with groups nested three deep, a 3-level nested template, a typed flat template), strict and non-strict, plus ValueByTag for 5 tags; (ii) every sequence of <= K tokens over {SOH,=,35,34,10,0,1,2,A, count tags and first-entry tags of the target} framed with a correct BodyLength and CheckSum. A call must return without panic (watchdog: 10 s without progress = hang). Non-trivial-distinct key: the input string (i) / (target, length, index class) (ii).",
+        assumptions=CODEC_ASSUME + ["the session-level consequence (no peer message makes the inbound path panic) is exercised by the history explorers of C06/C07/C16, whose alphabets contain damaged and truncated messages, with task-panic capture"],
+    ),
+}
+
+ENGINES = [
+    {"name": "codecmc", "path": "harness/codec", "serves_properties": ["C01", "C02", "C03", "C11", "C17", "C18"],
+     "kind_free_text": "E1: bounded-exhaustive enumeration of the codec input space (templates x populations x values x damage x byte strings) on the real fix / fix/encoding packages against an independent reference codec"},
+    {"name": "vsched", "path": "engine/vsched + engine/rewrite + harness/sess", "serves_properties": [],
+     "kind_free_text": "E2: the real transport/session code, source-rewritten so that goroutines, channels, select, sync, context, time and errgroup run on a controlled scheduler with virtual time; stateless deviation-bounded DFS over schedules and exhaustive enumeration of event histories"},
+]
+
+NOT_APPLICABLE = {}
+
+LEVEL_TEXT = {
+    "C01": "Bounded-exhaustive exploration of the real serializer: every message of a finite, explicitly bounded template/population/value space is serialised and checked by a byte-level oracle that knows nothing about the library. Right level because the property is a pure function of the input and its failure modes (digit-count boundaries, modular wrap, empty parts) are reached by small inputs.",
+    "C17": "Bounded-exhaustive exploration of the real serializer against a reference field-list model, with values entering through every public route (constructor, Set, FromBytes) in header, body, trailer, components and group entries.",
+    "C02": "Bounded-exhaustive exploration of parse∘serialize on the real codec: every message of the bounded space is serialised, parsed into a fresh template in both modes, compared leaf by leaf with the population and re-serialised.",
+    "C18": "Bounded-exhaustive exploration of tag-boundary confusion: every template tag is planted inside values and as decimal prefix/suffix decoy tags, and both Unmarshal and ValueByTag are compared with a whole-tag reference.",
+    "C03": "Exhaustive enumeration of the complete single-damage neighbourhood (all substitutions, insertions, deletions, prefixes) of a base set of valid messages, parsed in both modes, with an independent integrity validator as second oracle.",
+    "C11": "Exhaustive enumeration of all short byte strings over a delimiter-heavy alphabet and of all framed token strings up to a bound, against message types with nested groups; oracle is absence of panic and termination.",
+}
+
+TECHNIQUE = {
+    "C01": "bounded-exhaustive input enumeration on the real code vs reference oracle (small-scope model checking of a sequential function)",
+    "C17": "bounded-exhaustive input enumeration on the real code vs reference field-list model",
+    "C02": "bounded-exhaustive input enumeration on the real code, differential round-trip oracle",
+    "C18": "bounded-exhaustive input enumeration on the real code vs whole-tag reference parser/lookup",
+    "C03": "exhaustive single-fault (byte damage) neighbourhood enumeration on the real parser",
+    "C11": "exhaustive enumeration of all byte/token strings up to a length bound on the real parser",
 }
